@@ -263,6 +263,9 @@ fn curve_line(run: &mut Run, id: &str, c: &Case, family: &str) -> bool {
         }
         Some(Ok(o)) => {
             run.count(&format!("curve:vertices:{}", bucket(o.path.len())));
+            if family == "arc-cap" {
+                run.count(&format!("curve:arc-cap:vertices:{}", match o.path.len() { 0..=997 => "<998", 998 => "998", 999 => "999(=cap-1)", _ => "bezier-fallback(sub_points >= 1000)" }));
+            }
             run.count(&format!("curve:family:{family}"));
             let kinds: String = {
                 let mut k: Vec<char> = c.cps.iter().map(|p| p.2).filter(|&t| t != 'n').collect();
@@ -530,6 +533,19 @@ fn arc_case(rng: &mut Rng) -> Case {
     Case { mode: *rng.pick(&[0u8, 2]), cps: vec![(pts[0].0, pts[0].1, 'P'), (pts[1].0, pts[1].1, 'n'), (pts[2].0, pts[2].1, 'n')], expected }
 }
 
+/// Arcs whose point count lands on / next to the 1000-point cap (`sub_points >= 1000` falls back to
+/// bezier): radius 60 000 - 100 000, angle chosen so that `theta_range / (2 acos(1 - 0.1 / r))` is
+/// 1000 +- 0.3 %.
+fn arc_cap_case(rng: &mut Rng) -> Case {
+    let r = 60_000.0 + rng.unit() * 40_000.0;
+    let step = 2.0 * f64::from((1.0f32 - 0.1f32 / r as f32).acos());
+    let span = (1000.0 * step * (1.0 + (rng.unit() - 0.5) * 0.006)).min(6.2) * if rng.chance(1, 2) { 1.0 } else { -1.0 };
+    let t0 = rng.unit() * std::f64::consts::TAU;
+    let at = |t: f64| ((r * t.cos()) as f32, (r * t.sin()) as f32);
+    let (a, b, c) = (at(t0), at(t0 + span * 0.5), at(t0 + span));
+    Case { mode: *rng.pick(&[0u8, 2]), cps: vec![(a.0, a.1, 'P'), (b.0, b.1, 'n'), (c.0, c.1, 'n')], expected: Some(r * span.abs()) }
+}
+
 fn slider_text(rng: &mut Rng) -> String {
     let (x, y) = (rng.range(0, 512), rng.range(0, 384));
     let letter = *rng.pick(&["L", "B", "P", "C", "B", "P"]);
@@ -698,6 +714,71 @@ fn pipe_catch_curve(run: &mut Run, id: &str, text: &str, rng: &mut Rng) {
     run.eval((n_sliders > 0).then_some(id));
 }
 
+/// `OSLDC` lines: every slider of an osu! map — what the real `OsuObject::new` stores (end time,
+/// nested objects WITH their positions, lazy end position; through `osu::verif::conv_probe(..).raw`)
+/// vs the model computing all of it from the control points (curve model + slider-event model).
+fn osldc_lines(run: &mut Run, id: &str, text: &str) {
+    use rosu_pp::osu::verif::{conv_probe, slider_inputs};
+    let Ok(map) = decode(text) else { return };
+    if map.mode != rosu_pp::model::mode::GameMode::Osu {
+        return;
+    }
+    let d = rosu_pp::Difficulty::new();
+    let m2 = map.clone();
+    let Ok((probe, inputs)) = guarded(move || (conv_probe(&d, &m2), slider_inputs(&m2, MapMode::Osu))) else {
+        run.fail("oracle:osu-conv-probe-panic", "", id, "conv_probe panicked".into(), text.to_owned());
+        return;
+    };
+    if probe.raw.len() != map.hit_objects.len() || inputs.len() != map.hit_objects.len() {
+        run.count("osldc:skipped:length-mismatch");
+        return;
+    }
+    for (k, ((raw, inp), h)) in probe.raw.iter().zip(inputs.iter()).zip(map.hit_objects.iter()).enumerate() {
+        let (Some(i), HitObjectKind::Slider(sld)) = (inp, &h.kind) else { continue };
+        if raw.nested.len() > 20_000 {
+            run.count("osldc:skipped:too-many-nested");
+            continue;
+        }
+        let cps: Vec<String> = sld.control_points.iter().map(|p| format!("{}~{}~{}", h32(p.pos.x), h32(p.pos.y), letter_of(p.path_type))).collect();
+        let req = format!(
+            "OSLDC {} {} {} {}:{}:{}:{}:{} {} {} {}",
+            map.version,
+            map.slider_multiplier.to_bits(),
+            map.slider_tick_rate.to_bits(),
+            i.start_time.to_bits(),
+            i.beat_len.to_bits(),
+            i.slider_velocity.to_bits(),
+            u8::from(i.generate_ticks),
+            i.span_count,
+            sld.expected_dist.map_or("-".to_owned(), h64),
+            if cps.is_empty() { "-".to_owned() } else { cps.join(",") },
+            raw.lazy_travel_time.to_bits()
+        );
+        let key = |t: f64| -> i128 {
+            let b = t.to_bits();
+            if b < 1 << 63 {
+                i128::from(b)
+            } else {
+                -i128::from(b - (1 << 63)) - 1
+            }
+        };
+        let mut nested: Vec<(i128, u8, u32, u32, String)> = raw
+            .nested
+            .iter()
+            .map(|n| (key(n.start_time), n.kind, n.pos.x.to_bits(), n.pos.y.to_bits(), format!("{}:{}:{}", n.kind, show_d(n.start_time), show_pos(n.pos))))
+            .collect();
+        nested.sort();
+        let items: Vec<String> = nested.into_iter().map(|n| n.4).collect();
+        let obs = format!("{}|{}|{}|{}", show_d(raw.end_time), show_long(&items), show_pos(raw.lazy_end_pos), show_d(i.dist));
+        let lid = format!("{id}:{k}");
+        run.count("osldc:lines");
+        run.count(&format!("osldc:nested:{}", bucket(items.len())));
+        run.repro.insert(lid.clone(), req.clone());
+        run.eval((items.len() > 1).then_some(req.as_str()));
+        run.line(&lid, req, obs);
+    }
+}
+
 fn pipe_lines(run: &mut Run, thorough: bool, rng: &mut Rng, want: &dyn Fn(&str) -> bool) {
     let n_maps = if thorough { 1500 } else { 150 };
     for i in 0..n_maps {
@@ -707,6 +788,19 @@ fn pipe_lines(run: &mut Run, thorough: bool, rng: &mut Rng, want: &dyn Fn(&str) 
         let text = slider_map_text(rng, version, mode, 10);
         if want(&id) {
             pipe_catch_curve(run, &id, &text, rng);
+        }
+    }
+    for i in 0..(if thorough { 1200 } else { 120 }) {
+        let id = format!("curve:osldc:{i}");
+        let version = *rng.pick(&[5u32, 7, 9, 14, 14, 128]);
+        let text = slider_map_text(rng, version, 0, 10);
+        if want(&id) {
+            osldc_lines(run, &id, &text);
+        }
+    }
+    for (mode, text) in resource_maps() {
+        if mode == 0 && want("curve:osldc:res") {
+            osldc_lines(run, "curve:osldc:res", &if thorough { text.clone() } else { truncate_objects(&text, 200) });
         }
     }
     for (mode, text) in resource_maps() {
@@ -763,6 +857,13 @@ pub fn run(run: &mut Run, tier: &str, seed: u64, only: Option<&str>) {
         let c = arc_case(&mut rng);
         if alive && want(&id) {
             alive = curve_line(run, &id, &c, "arc");
+        }
+    }
+    for i in 0..(if thorough { 600 } else { 120 }) {
+        let id = format!("curve:arccap:{i}");
+        let c = arc_cap_case(&mut rng);
+        if alive && want(&id) {
+            alive = curve_line(run, &id, &c, "arc-cap");
         }
     }
     // 4. sliders of decoded maps (the decoder's segmentation incl. legacy catmull), resource maps
